@@ -68,8 +68,9 @@ struct FpAcc {
 // compares a float spline with the exact spline E / magnitude S on the level of
 // the denoted functions: per grid interval, coefficient by coefficient; where
 // one side has no interval (or fewer coefficients) the missing entries are 0
+// scale: E and S are multiplied by it (an exact power of two: the operand was scaled by it)
 template <typename F, size_t O>
-void cmpSpline(FpAcc &acc, const Spline<F, O> &r, const json &E, const json &S, const std::string &what) {
+void cmpSpline(FpAcc &acc, const Spline<F, O> &r, const json &E, const json &S, const std::string &what, Q scale = 1) {
   const size_t npts = r.getSupport().getGrid().size();
   const size_t rs = r.getSupport().getStartIndex();
   const size_t es = E.at("s").get<size_t>();
@@ -83,8 +84,8 @@ void cmpSpline(FpAcc &acc, const Spline<F, O> &r, const json &E, const json &S, 
     const size_t nmax = std::max<size_t>(inR ? O + 1 : 0, ne);
     for (size_t k = 0; k < nmax; k++) {
       const F f = (inR && k <= O) ? rc[j - rs][k] : static_cast<F>(0);
-      const Q e = (inE && k < ne) ? ratQ(ec[j - es][k]) : 0;
-      const Q s = (inE && k < ne) ? ratQ(sc[j - es][k]) : 0;
+      const Q e = (inE && k < ne) ? ratQ(ec[j - es][k]) * scale : 0;
+      const Q s = (inE && k < ne) ? ratQ(sc[j - es][k]) * scale : 0;
       acc.cmp(f, e, s, what + "[" + std::to_string(j) + "][" + std::to_string(k) + "]");
     }
   }
